@@ -22,6 +22,9 @@ func init() {
 			a.smpNil("U.nil")
 			a.smpParsing("U.smp-counts")
 			a.smpUserCalls("P.smp-user-calls")
+			// "never a crash": the undischarged bounds checks and the divisions on the SMP paths
+			a.boundsTableFor("U.bounds", "(*Conversation).receiveSMP", "(*Conversation).processSMPTLV", "(*Conversation).StartAuthenticate", "(*Conversation).ProvideAuthenticationSecret", "(*Conversation).AbortAuthentication", "(tlv).smpMessage")
+			a.closedBigOps("U.bigint-ops", "(*Conversation).receiveSMP", "(*Conversation).processSMPTLV", "(*Conversation).StartAuthenticate", "(*Conversation).ProvideAuthenticationSecret", "(tlv).smpMessage")
 		})
 }
 
